@@ -276,3 +276,175 @@ def fold_source(v, path, paths):
             sp = _rev(sp)
         return sp, folds[0][3]
     return None
+
+
+# ---- search loops ------------------------------------------------------------------------------------
+
+class LoopPred(Closure):
+    """Predicate of a search written as a loop (`for x in it { if !p(x) { continue } return f(x) } default`): stands where the
+    closure of `it.find(p)` would stand; `cond` is p over Sym("cand")."""
+    __slots__ = ("cond",)
+
+    def __init__(self, cond, tag=""):
+        Closure.__init__(self, "loop-pred:" + tag, {})
+        self.cond = cond
+
+    def key(self):
+        return ("looppred", self.cond.key())
+
+
+class PseudoPath:
+    def __init__(self, decisions, result):
+        self.decisions, self.result, self.status, self.note = decisions, result, "return", None
+        self.events, self.trace = [], [("d", d) for d in decisions]
+
+
+def _subst(v, old_key, new, depth=0):
+    if depth > 80:
+        return v
+    if v.key() == old_key:
+        return new
+    if isinstance(v, App):
+        return App(v.fn, [_subst(a, old_key, new, depth + 1) for a in v.args])
+    if isinstance(v, Variant):
+        return Variant(v.adt, v.variant, {k: _subst(x, old_key, new, depth + 1) for k, x in v.fields.items()})
+    if isinstance(v, Tup):
+        return Tup([_subst(x, old_key, new, depth + 1) for x in v.elems], v.kind)
+    return v
+
+
+_CMP_FN = {"<": "binop:Lt", "<=": "binop:Le", ">": "binop:Gt", ">=": "binop:Ge", "==": "binop:Eq", "!=": "binop:Ne"}
+
+
+def search_loop_paths(paths):
+    """Rewrite the paths of a body that contains ONE search loop into the vocabulary of `Iterator::find`:
+    a path that leaves the loop from inside a trip becomes `discr(find(SRC, P)) = Some` + its remaining decisions over
+    `.0(as:Some(find(SRC, P)))`; a path that leaves it by exhaustion becomes `discr(find(SRC, P)) = None` + the rest.
+    Conditions (else None): every completed trip changes nothing but the iterator and is taken under one and the same
+    condition C(item); P = not C.  Returns (list of PseudoPath, problem text)."""
+    from . import rel
+    rets = [p for p in paths if p.status == "return"]
+    if any(p.status not in ("return", "loop-pruned", "unreachable") for p in paths):
+        return None, "shape"
+    heads = set()
+    for p in paths:
+        for t in all_trips(p):
+            heads.add((t.body_path, t.header))
+    if len(heads) != 1:
+        return None, "%d loops" % len(heads)
+
+    def next_dec(t):
+        """(position in items, iterator term X, label) of the decision on next(X)"""
+        for j, (k, x) in enumerate(t.items):
+            if k == "d" and isinstance(x[1], App) and x[1].fn == "discr" and isinstance(x[1].args[0], App) and \
+                    x[1].args[0].fn in ("std::iter::Iterator::next", "std::iter::DoubleEndedIterator::next_back") and x[2] in ("Some", "None"):
+                return j, x[1].args[0].args[0], x[2], x[1].args[0]
+        return None
+    # the continue condition, from completed trips
+    conds = set()
+    src = None
+    for p in paths:
+        for t in all_trips(p):
+            nd = next_dec(t)
+            if nd is None:
+                if not [1 for k, x in t.items if k == "d"]:
+                    continue        # the arrival that ends a covered path
+                return None, "a trip without a decision on next()"
+            j, X, lab, nxt = nd
+            if not t.general and src is None and not isinstance(X, Unknown):
+                src = X
+            if t.post is None or lab != "Some":
+                continue
+            item = App(".0", [App("as:Some", [nxt])])
+            ds = [x for k, x in t.items[j + 1:] if k == "d"]
+            if any(k == "e" and x[0] == "write_opaque" for k, x in t.items):
+                return None, "a completed trip writes state"
+            if t.general:
+                itl = loop_unknown(X)
+                changed = [(L, v) for L, v in t.pre.items()
+                           if isinstance(v, Unknown) and (itl is None or L != itl[1]) and L in t.post and t.post[L].key() != v.key()]
+                if changed:
+                    # a local that is re-assigned on every trip before it is read (a temporary) is not state: its old value is used nowhere
+                    from .dispatch import subterms
+                    used = set()
+                    for q in paths:
+                        for t2 in all_trips(q):
+                            if not t2.general or t2.header != t.header:
+                                continue
+                            terms = [x[1] for k, x in t2.items if k == "d"] + [v2 for v2 in (t2.post or {}).values()]
+                            if t2.post is None and q.result is not None:
+                                terms.append(q.result)
+                            for tm in terms:
+                                for sb in subterms(tm):
+                                    if isinstance(sb, Unknown):
+                                        used.add(sb.key())
+                    if any(v.key() in used for L, v in changed):
+                        return None, "a completed trip changes loop-carried state"
+            conds.add(tuple((rel.cstr(_subst(rel.canon(d[1]), rel.canon(item).key(), Sym("cand"))), str(d[2])) for d in ds))
+    if src is None:
+        return None, "iterator source not found"
+    if len(conds) != 1 or len(next(iter(conds))) != 1:
+        return None, "completed trips are not taken under one condition: %s" % sorted(conds)[:2]
+    cstr_c, lab_c = next(iter(conds))[0]
+    while isinstance(src, App) and src.fn == "std::iter::IntoIterator::into_iter" and len(src.args) == 1:
+        src = src.args[0]
+    out, seen = [], set()
+    pred = None
+    for p in rets:
+        ts = all_trips(p)
+        if not ts:
+            out.append(p)
+            continue
+        first_i = min(t.index for t in ts)
+        before = [x for k, x in p.trace[:first_i] if k == "d"]
+        last = max(ts, key=lambda t: t.index)
+        nd = next_dec(last)
+        j, X, lab, nxt = nd
+        item = rel.canon(App(".0", [App("as:Some", [nxt])]))
+        after = [x for k, x in last.items[j + 1:] if k == "d"]
+        if lab == "Some":
+            # the decision that ends the search is the negation of the continue condition
+            if not after:
+                return None, "a trip ends the search without a condition"
+            d0 = after[0]
+            c0 = rel.cstr(_subst(rel.canon(d0[1]), item.key(), Sym("cand")))
+            if c0 != cstr_c or str(d0[2]) == lab_c:
+                return None, "a trip ends the search under %s = %s, completed trips continue under %s = %s" % (c0[:60], d0[2], cstr_c[:60], lab_c)
+            if pred is None:
+                t0 = _subst(rel.canon(d0[1]), item.key(), Sym("cand"))
+                if d0[2] is True:
+                    pc = t0
+                elif isinstance(t0, App) and t0.fn in rel._CMP and len(t0.args) == 2:
+                    pc = App(_CMP_FN[rel._NEG[rel._CMP[t0.fn]]], list(t0.args))
+                else:
+                    pc = App("unop:Not", [t0])
+                pred = LoopPred(pc)
+            after = after[1:]
+    if pred is None:
+        return None, "no trip ends the search"
+    find = App("std::iter::Iterator::find", [src, pred])
+    found = App(".0", [App("as:Some", [find])])
+    for p in rets:
+        ts = all_trips(p)
+        if not ts:
+            continue
+        first_i = min(t.index for t in ts)
+        before = [x for k, x in p.trace[:first_i] if k == "d"]
+        last = max(ts, key=lambda t: t.index)
+        j, X, lab, nxt = next_dec(last)
+        item = rel.canon(App(".0", [App("as:Some", [nxt])]))
+        after = [x for k, x in last.items[j + 1:] if k == "d"]
+        if lab == "Some":
+            after = after[1:]
+            decs = before + [("switch", App("discr", [find]), "Some", after[0][3] if after else None)] + \
+                [(d[0], _subst(rel.canon(d[1]), item.key(), found), d[2], d[3]) for d in after]
+            res = _subst(rel.canon(p.result), item.key(), found)
+        else:
+            decs = before + [("switch", App("discr", [find]), "None", None)] + list(after)
+            res = p.result
+        key = (tuple((rel.cstr(d[1]), str(d[2])) for d in decs), rel.cstr(res))
+        if key in seen:
+            continue
+        seen.add(key)
+        out.append(PseudoPath(decs, res))
+    return out, ""
